@@ -617,7 +617,7 @@ def check(pid, tier, replay=None):
         "evaluations": impl.get("evaluations", 0),
         "distinct_nontrivial": impl.get("distinct_nontrivial", 0),
         "rule": impl.get("rule", ""),
-        "samples": impl.get("samples", [])[:5],
+        "samples": (impl.get("samples") or [])[:5],
         "distribution": impl.get("distribution", {}),
         "traces_validated_against_impl": impl.get("evaluations", 0) - len(mism),
         "correspondence_mismatches": len(mism),
